@@ -8,7 +8,7 @@ Steps (all output under /verif/work, serialised by a lock, skipped when nothing 
   4. extraction of the model to OCaml and build of the model-side driver
 The result is a status dictionary saved as work/build_status.json.
 """
-import fcntl, hashlib, json, os, shutil, subprocess, sys, time, glob
+import fcntl, hashlib, json, os, re, shutil, subprocess, sys, time, glob
 
 VERIF = os.path.dirname(os.path.dirname(os.path.abspath(__file__)))
 REPO = os.environ.get("VERIF_REPO", "/repo")
@@ -94,6 +94,49 @@ def coq_project(fam):
     if changed or not os.path.exists(os.path.join(d, "Makefile")):
         sh("coq_makefile -f _CoqProject -o Makefile", cwd=d)
     return vs
+
+
+def strip_coq_comments(t):
+    out, depth, i, n = [], 0, 0, len(t)
+    instr = False
+    while i < n:
+        if depth == 0 and t[i] == '"':
+            instr = not instr
+            out.append(t[i]); i += 1
+        elif not instr and t.startswith("(*", i):
+            depth += 1; i += 2
+        elif not instr and depth > 0 and t.startswith("*)", i):
+            depth -= 1; i += 2
+        else:
+            if depth == 0:
+                out.append(t[i])
+            i += 1
+    return "".join(out)
+
+
+FORBIDDEN = re.compile(r"\b(Axiom|Axioms|Parameter|Parameters|Conjecture|Conjectures|Admitted|admit|give_up|Admit Obligations|Unset Guard Checking|"
+                       r"Unset Positivity Checking|Unset Universe Checking|bypass_check|native_compute|Local Unset|type_in_type)\b")
+
+
+def forbidden_scan():
+    """no declared axiom, no open proof, no switched-off kernel check, no native_compute anywhere in the development
+    (comments and strings excluded); Variable/Hypothesis only inside a Section"""
+    bad = []
+    for fam in FAMILIES:
+        for f in sorted(glob.glob(os.path.join(COQ, fam, "*.v"))):
+            t = strip_coq_comments(open(f, errors="replace").read())
+            for m in FORBIDDEN.finditer(t):
+                bad.append("%s/%s: %s" % (fam, os.path.basename(f), m.group(1)))
+            depth = 0
+            for line in t.split("\n"):
+                ls = line.strip()
+                if re.match(r"Section\b", ls):
+                    depth += 1
+                elif re.match(r"End\b", ls) and depth > 0:
+                    depth -= 1
+                elif depth == 0 and re.match(r"(Variable|Variables|Hypothesis|Hypotheses|Context)\b", ls):
+                    bad.append("%s/%s: %s outside a section" % (fam, os.path.basename(f), ls.split()[0]))
+    return bad
 
 
 def build_coq(status):
@@ -204,6 +247,10 @@ def prepare(force=False, verbose=False):
                 dst = os.path.join(tiedir, f)
                 if write_if_changed(dst, open(os.path.join(gen_tmp, f)).read()):
                     status["gen_changed"].append(f)
+        bad = forbidden_scan()
+        status["forbidden"] = bad
+        if bad:
+            status["errors"].append("forbidden constructs in the Coq development: " + "; ".join(bad[:10]))
         build_coq(status)
         # extraction + driver
         odir = os.path.join(WORK, "ocaml")
